@@ -22,7 +22,7 @@ code -> spec: random world files and random atoms (slots drawn from the PMS slot
 Carve-outs  : comment and @set lines of an existing file are not "entries" (pinned by the repo tests: they
               are dropped on rewrite); comment lines are generated (also comment-only files) and ignored when the
               file is read back, @set lines are not generated.  A removal of an entry that is not recorded is
-              a refusal (KeyError, swallowed by update_worldset, no flush).
+              a refusal (the call ends without flushing; KeyError swallowed by update_worldset).
 """
 import os
 import time
@@ -35,6 +35,33 @@ FIRST = "abcxyzABZ0123456789_"
 REST = FIRST + "+.-"
 FIXED_SLOTS = ["0", "1", "2", "12", "10", "00", "0.1", "1.2", "1.2.3", "a_b", "3.11", "2+", "stable", "5-r1", "_x", "01"]
 KEYS = ["a/b", "a/c", "dev-lang/python", "sys-libs/glibc", "x11-libs/gtk+"]
+
+
+class bounded_buffer:
+    """fsrec's write proxy buffers like a file object with an unbounded buffer: data reaches the disk at close().  A
+    real file object flushes inside write() once its (8 KiB) buffer is full, so an I/O error or a cut can also strike
+    INSIDE write(), before the writer's own close()/discard() logic runs.  With this context manager the proxy's buffer
+    holds at most `limit` bytes, so both shapes of a write are crash points (scenarios alternate)."""
+
+    def __init__(self, limit):
+        self.limit = limit
+
+    def __enter__(self):
+        from pylib import fsrec
+        self.cls, self.orig = fsrec._FileProxy, fsrec._FileProxy.write
+        orig, limit = self.orig, self.limit
+
+        def write(p, data):
+            r = orig(p, data)
+            if getattr(p, "_buffered", False) and limit is not None and sum(len(x) for x in p._pending) > limit:
+                p.flush()
+            return r
+        self.cls.write = write
+        return self
+
+    def __exit__(self, *a):
+        self.cls.write = self.orig
+        return False
 
 
 def mc_cfg(variant, small):
@@ -97,7 +124,7 @@ class Runner:
         base = self.WorldFile
 
         class Observed(base):
-            # update_worldset's own control flow decides about the refusal; observe it on the real object
+            # a refusal = a removal that ends without flushing the file; observed on the real object
             def remove(s, x):
                 try:
                     return base.remove(s, x)
@@ -122,7 +149,7 @@ class Runner:
             except Exception as e:  # noqa
                 err = type(e).__name__
             self.events.append(dict(tid=tid, i=i, ev="update", key=op["key"], slot=op["slot"], remove=bool(op["remove"]),
-                                    refused=("KeyError" in seen and "flush" not in seen), error=err, file=read_lines(path),
+                                    refused=(bool(op["remove"]) and not err and "flush" not in seen), error=err, file=read_lines(path),
                                     mem=sorted(str(x) for x in ws)))
             self.ck.count()
             if len(op["slot"]) > 1 or init:
@@ -267,14 +294,15 @@ def run(ck):
             return {"entries": sorted(str(x) for x in WorldFile(p))}
 
         try:
-            evs, info = atomic.scenario(tid, os.path.join(root, f"r{tid}"), setup, op_, reader=reader, watch_paths=["var/world"],
-                                        frame=["var/world", "var/.update.world"], faults=True, label="world.flush")
+            with bounded_buffer(8 if tid % 2 else None):  # odd scenarios: the write hits the disk inside write()
+                evs, info = atomic.scenario(tid, os.path.join(root, f"r{tid}"), setup, op_, reader=reader, watch_paths=["var/world"],
+                                            frame=["var/world", "var/.update.world"], faults=True, label="world.flush")
         except (MalformedAtom, KeyError):
             # the update itself fails on this input: reported as Completes by WorldFile_Trace, nothing to interrupt
             ck.extra["crash_scenarios_skipped_update_raises"] = ck.extra.get("crash_scenarios_skipped_update_raises", 0) + 1
             continue
         fs_events += evs
-        inputs[tid] = dict(init=init if init is not None else [], ops=[op], atoms=[text], absent=init is None)
+        inputs[tid] = dict(init=init if init is not None else [], ops=[op], atoms=[text], absent=init is None, write_through=bool(tid % 2))
         ck.count()
         ck.extra["crash_points"] = ck.extra.get("crash_points", 0) + info["crash_points"]
         if tid == 0:
